@@ -101,6 +101,14 @@ impl Monitor for C19 {
     fn exhaustive_note(&self) -> Option<String> { None }
 
     fn generate(&self, rng: &mut Rng, tier: Tier) -> J {
+        if rng.chance(1, 12) {
+            // follow mode: lines arriving after the interrupt would fail to evaluate (division by zero) or are filtered out
+            let n_pre = rng.below(6);
+            let pre: Vec<String> = (0..n_pre).map(|_| format!("i={}", rng.range(1, 9))).collect();
+            let post: Vec<String> = match rng.below(3) { 0 => vec!["i=0".into(), "i=3".into()], 1 => (0..(2 + rng.below(4))).map(|_| format!("i={}", rng.range(1, 9))).collect(), _ => vec!["i=4".into(), "i=0".into(), "i=0".into()] };
+            let stmt = *rng.pick(&["SELECT i FROM t WHERE ( 100 / i ) > 1000", "SELECT ( 100 / i ) FROM t WHERE ( 100 / i ) > 1000", "SELECT DISTINCT i FROM t WHERE ( 100 / i ) > 1000 LIMIT 3"]);
+            return json!({"kind": "follow", "tables": "CREATE TABLE t ( line = 'i=(-?[0-9]+)' , line [ 1 ] => i INT ) ;", "stmt": stmt, "pre": pre, "post": post});
+        }
         let kind = if tier == Tier::Thorough { match rng.below(20) { 0 | 1 => "thread", 2 if eng::cli_path().is_some() => "cli", _ => "points" } } else { "points" };
         if kind == "cli" {
             let n = 20_000 + rng.below(100_000);
@@ -113,6 +121,7 @@ impl Monitor for C19 {
         let kind = case["kind"].as_str().unwrap_or("");
         obs.hit(&format!("kind:{}", kind));
         if kind == "cli" { return check_cli(case, obs); }
+        if kind == "follow" { return check_follow(case, obs); }
         let setup = match prepare(case) { Ok(s) => s, Err(e) => return Verdict::Inconclusive(e.chars().take(40).collect()) };
         let v = if kind == "thread" { check_thread(&setup, obs) } else { check_points(&setup, obs) };
         if let Some(p) = &setup.joined { let _ = std::fs::remove_file(p); }
@@ -282,5 +291,52 @@ fn check_cli(case: &J, obs: &mut Obs) -> Verdict {
         if m > 0 && (m as usize) < n { obs.nontrivial(); }
         obs.hit(if m == 0 { "cli:stopped-before-output" } else if m as usize >= n { "cli:ran-to-end" } else { "cli:stopped-inside" });
     }
+    if vs.is_empty() { Verdict::Held } else { Verdict::Violated(vs) }
+}
+
+
+/// follow mode: the flag is cleared while the executor waits at end of file; more lines arrive afterwards. The executor may
+/// fetch the next delivered line but must neither evaluate it (an evaluation error would be reported) nor go on reading.
+fn check_follow(case: &J, obs: &mut Obs) -> Verdict {
+    use sqlgrep::execution::execution_engine::ExecutionEngine;
+    use sqlgrep::executor::{DisplayOptions, FollowFileExecutor};
+    use sqlgrep::verif_hooks::{set_follow_eof, FollowAction};
+    use std::io::Write;
+    let tables = match eng::tables_from(case["tables"].as_str().unwrap_or("")) { Ok(t) => t, Err(e) => return Verdict::Inconclusive(format!("table: {}", e.show())) };
+    let stmt = match eng::parse(case["stmt"].as_str().unwrap_or("")) { Ok(s) => s, Err(e) => return Verdict::Inconclusive(format!("stmt: {}", e.show())) };
+    let strs = |k: &str| -> Vec<String> { case[k].as_array().map(|a| a.iter().filter_map(|x| x.as_str().map(|s| s.to_owned())).collect()).unwrap_or_default() };
+    let (pre, post) = (strs("pre"), strs("post"));
+    let path = eng::write_scratch(&format!("c19-follow-{}.log", case_hash(case)), &file_bytes(&pre));
+    let running = Arc::new(AtomicBool::new(true));
+    let eofs_after_clear = Rc::new(RefCell::new(0usize));
+    let cleared = Rc::new(RefCell::new(false));
+    let (r2, e2, c2, p2, post2) = (running.clone(), eofs_after_clear.clone(), cleared.clone(), path.clone(), file_bytes(&post));
+    set_follow_eof(Some(Box::new(move || {
+        if !*c2.borrow() {
+            *c2.borrow_mut() = true;
+            r2.store(false, Ordering::SeqCst);
+            if let Ok(mut f) = std::fs::OpenOptions::new().append(true).open(&p2) { let _ = f.write_all(&post2); }
+            FollowAction::Continue
+        } else { *e2.borrow_mut() += 1; FollowAction::Stop }
+    })));
+    let result = guard(|| -> Result<(), String> {
+        let file = std::fs::File::open(&path).map_err(|e| e.to_string())?;
+        let engine = ExecutionEngine::new(&tables, &stmt);
+        let mut ex = FollowFileExecutor::new(running.clone(), file, true, DisplayOptions::default(), engine).map_err(|e| e.to_string())?;
+        ex.execute().map_err(|e| e.to_string())
+    });
+    set_follow_eof(None);
+    let _ = std::fs::remove_file(&path);
+    obs.evals += 1;
+    obs.hit("follow-interrupt");
+    if !post.is_empty() { obs.sub(crate::rng::mix(&[case_hash(case), 5])); }
+    let mut vs = Vec::new();
+    match &result {
+        Err(p) => vs.push(Violation::new(format!("interrupt|follow|{}", p.sig()), p.describe())),
+        Ok(Err(e)) => vs.push(Violation::new("interrupt|follow|error-reported", format!("flag cleared at end of file after {} lines, {} more lines arrived: execute() returned {:?}", pre.len(), post.len(), e))),
+        Ok(Ok(())) => {}
+    }
+    if !*cleared.borrow() { return Verdict::Inconclusive("end-of-file-never-reached".into()); }
+    if *eofs_after_clear.borrow() > 0 && !post.is_empty() { vs.push(Violation::new("interrupt|follow|kept-reading-after-clear", format!("flag cleared at end of file after {} lines; all {} lines that arrived afterwards were consumed and the reader waited at end of file again", pre.len(), post.len()))); }
     if vs.is_empty() { Verdict::Held } else { Verdict::Violated(vs) }
 }
